@@ -239,6 +239,10 @@ KINDS = [
     dict(kind="GradientStop", classes=["_GradientStop", "ColorFormat"], deck="shapes", path="slides[0].shapes[10].fill.gradient_stops[0]", corpus="gradstop",
          props=[P("position", "frac", lo=0.0, hi=1.0, q=Q_FRAC, edgeDoc=True, typ=(0.25, 0.5), src="_GradientStop.position: float between 0.0 and 1.0")]
          + color_props("color.")),
+    # the LAST member of an indexed collection (its position starts at the top of the range: any smaller value passes the first stop's)
+    dict(kind="LastGradientStop", classes=["_GradientStop", "ColorFormat"], deck="shapes", path="slides[0].shapes[10].fill.gradient_stops[1]", corpus="-",
+         props=[P("position", "frac", lo=0.0, hi=1.0, q=Q_FRAC, edgeDoc=True, typ=(0.25, 0.5), src="_GradientStop.position: float between 0.0 and 1.0")]
+         + color_props("color.")),
     dict(kind="PatternFill", classes=["FillFormat", "_PattFill"], deck="shapes", path="slides[0].shapes[11].fill", corpus="pattfill", props=[
         enum("pattern", "pptx.enum.dml.MSO_PATTERN", none=True, xp="a:pattFill/@prst", src="FillFormat.pattern: member of MSO_PATTERN_TYPE or None"),
         RO("type"),
